@@ -74,7 +74,7 @@ CLAIMED = {
   'Trusted: Lean kernel, standard axioms; SQLite row order for identical files and queries is assumed deterministic (observed by the seed-to-seed comparison).'),
  'C18': (
   'Lean 4 proof that each validation code fires exactly on its defect (Model/Validate.lean), reverse-relation table proved involutive by kernel evaluation + correspondence on generated defective lexicons',
-  'Props/C18.lean: reverse relation table is functional, involutive and closed (decide +kernel over all entries); check selection (select=) exact; per-code exactness for W201 E204 W301 W303 W304 W305 W306 E401 W402 W502, soundness of W404; dangling targets do not crash. Real validate() on generated lexicons with injected defects of every kind is compared with the model report (codes, items, contexts).',
+  'Props/C18.lean: reverse relation table is functional, involutive and closed (decide +kernel over all entries); check selection (select=) exact; per-code exactness for W201 W202 W203 E204 W301 W302 W303 W304 W305 W306 W307 E401 W402 W403 W501 W502 (duplicate counting through a proved Counter invariant, Lemmas/Counter.lean), soundness of W404; dangling targets do not crash. Real validate() on generated lexicons with injected defects of every kind is compared with the model report (codes, items, contexts).',
   'Trusted: Lean kernel, standard axioms; the table regenerated from wn/constants.py by the translator.'),
  'C19': (
   'Lean 4 proof that _add_ili only writes ilis/ili_statuses, gives every listed ILI the status and definition of its last row, creates unknown ones, keeps ids unique and is idempotent + correspondence/oracle on real index files',
